@@ -5,8 +5,8 @@ import json
 
 claimed = {
  "C20": dict(level="exploration", engine="I",
-   text="bounded-exhaustive enumeration of message shapes (every list of <=2/4 attribute kinds (15 kinds) x 7 integrity/fingerprint endings, plus 16-fold repetitions up to 12 KB); every hot-path operation is measured with testing.AllocsPerRun in a dedicated GOMAXPROCS(1), GC-off process under two warm-up regimes; a non-zero reading must repeat 5 times before it counts",
-   note="measurement oracle tied to go1.23.5's escape analysis; one known finding (MessageIntegrity.Check needs 20 bytes of spare capacity) in KNOWN_FINDINGS.txt",
+   text="bounded-exhaustive enumeration of message shapes (every list of <=2/4 attribute kinds (16 kinds) x 7 integrity/fingerprint endings, plus 16-fold repetitions up to 12 KB), release and debug builds, plus the HMAC pool with 1..64 instances held at once; every hot-path operation is measured with testing.AllocsPerRun in a dedicated GOMAXPROCS(1), GC-off process under two warm-up regimes; a non-zero reading must repeat 5 times before it counts",
+   note="measurement oracle tied to go1.23.5's escape analysis; one known finding (MessageIntegrity.Check needs 20 bytes of spare capacity) in KNOWN_FINDINGS.txt; in the debug build a failing integrity check returns an allocated error value by design and is not measured",
    technique="bounded exhaustive enumeration of message shapes with a measurement oracle", ref="DESIGN.md section 2 C20"),
  "C10": dict(level="model_checking", engine="H+S",
    text="stateless model checking of the real Client on the rewritten library: every event history up to depth 4/5 (each event run to quiescence, all free thread choices, two epilogues; also from a non-initial state and with 99..250 transactions) and 11 concurrent scenarios explored over every interleaving within preemption bound 2/3 plus environment deviations (pool object choice, map order); exactly-once, argument class, Start-error-implies-no-handler, Do-returns-after-handler and deadlock freedom are evaluated on every execution",
@@ -29,7 +29,7 @@ claimed = {
    note="mutex release is not a scheduling point; the data-race clause is covered only by the free-running -race pass (sampled schedules); 2..16 goroutines of the quantifier are covered up to 3",
    technique="stateless model checking of the implementation + brute-force linearizability checking of every explored history", ref="DESIGN.md section 2 C14"),
  "C18": dict(level="model_checking", engine="H+S",
-   text="on the rewritten library with a model pool whose Get branches over every pooled object and a miss: all reuse histories use;put;use[;put;use] over 6 key lengths x all scripts of <=2/3 operations, all free histories to depth 5/6 over two live objects, and 2-3 concurrent pool users over every interleaving within the preemption bound; every Sum is compared with RFC 2104 written out over the hash function",
+   text="on the rewritten library with a model pool whose Get branches over every pooled object and a miss: all reuse histories use;put;use[;put;use] over 6 key lengths x all scripts of <=2/3 operations, all free histories to depth 5/6 over two live objects, and 2-3 concurrent pool users over every interleaving within the preemption bound; every Sum is compared with RFC 2104 written out over the hash function; on the real sync.Pool (free-running build, one goroutine): one instance in use while 1..300 other keys pass through the pool, one key through both pools",
    note="messages up to a few hundred bytes in chunks of 0/1/63/65; 4096-byte messages and random chunkings are not attempted; races inside one call are invisible to the cooperative scheduler",
    technique="explicit-state enumeration of reuse histories with environment-choice exploration (pool object selection) and preemption-bounded DFS", ref="DESIGN.md section 2 C18"),
  "C03": dict(level="model_checking", engine="H",
@@ -41,7 +41,7 @@ claimed = {
    note="message family of 12 (sizes 20..1225 bytes); poison bytes 0xD7/0xFF/0x01/seed",
    technique="explicit-state enumeration of use histories with a differential (fresh twin) oracle", ref="DESIGN.md section 2 C08"),
  "C13": dict(level="model_checking", engine="H",
-   text="breadth-first search over the real Agent to a fixed point of (model state, full private state dump): all reachable states (433) of the 3-id table with 7 deadline values x handler, every one of the 39 operations from every state, each compared (return value, event multiset, handler identity, message pointer) with the transaction-table model; plus all operation sequences of depth 4/5 without merging, the same at depth 3/4 with handlers that call back into the agent, 0..300 transactions at one Collect, and Collect nested in a timeout handler",
+   text="breadth-first search over the real Agent to a fixed point of (model state, full private state dump): all reachable states of the 3-id table with 7 deadline values x handler, every one of the 40 operations from every state, each compared (return value, event multiset, handler identity, message pointer) with the transaction-table model; plus all operation sequences of depth 4/5 without merging, the same at depth 3/4 with handlers that call back into the agent, 0..300 and, on a ladder, up to 100000 transactions at one Collect, and Collect nested in a timeout handler",
    note="complete for the stated alphabet; long random sequences over many ids are not attempted",
    technique="explicit-state model checking of the implementation against a reference model (BFS to fixed point, replay-to-reach)", ref="DESIGN.md section 2 C13"),
  "C04": dict(level="exploration", engine="I",
@@ -65,7 +65,7 @@ claimed = {
    note="value content is one pattern per class; for integrity/fingerprint the covered prefix is fixed and only uncovered bytes vary",
    technique="bounded exhaustive enumeration of input shapes and buffer configurations with a metamorphic (twin) oracle", ref="DESIGN.md section 2 C07"),
  "C16": dict(level="exploration", engine="I",
-   text="every string over the property's 20-symbol alphabet up to length 5 (quick) / 7 (thorough) after each of 7 prefixes, plus a long family and 24 constant (read-only) URIs, is parsed in isolated child processes with a capped stack and a hang watchdog; a crashing batch is bisected to one string. Exhaustive below the length bound, which is where the recursion defect lives (shortest witness has 3 symbols)",
+   text="every string over the property's 20-symbol alphabet up to length 5 (quick) / 7 (thorough) after each of 7 prefixes, plus a long family, a medium family (8..4096 repetitions of one symbol of 1..4 bytes in eight positions, also after unrelated library activity in the same process), a slot family, every IPv6 literal shape over four group values, and 24 constant (read-only) URIs, is parsed in isolated child processes with a capped stack and a hang watchdog; a crashing batch is bisected to one string. Exhaustive below the length bound, which is where the recursion defect lives (shortest witness has 3 symbols)",
    note="stack cap 16 MB stands for 'unbounded'; 8 s per string stands for 'time bounded by input length'; random / grammar-mutated tails not attempted",
    technique="bounded exhaustive enumeration of all strings over a finite alphabet, process-isolated execution", ref="DESIGN.md section 2 C16"),
  "C17": dict(level="exploration", engine="I",
@@ -73,7 +73,7 @@ claimed = {
    note="one known finding (bracketed host starting with '/' does not round-trip) is listed in KNOWN_FINDINGS.txt; DTLS/TLS detection by record header bytes",
    technique="bounded exhaustive enumeration of inputs and configurations against a component-level reference", ref="DESIGN.md section 2 C17"),
  "C01": dict(level="exploration", engine="I",
-   text="bounded-exhaustive enumeration of length structures (attribute-length sequences x declared length x buffer length up to a body bound), tiny-alphabet bodies and the 65535-byte family, through all 7 decoding entry points x buffer capacities x fresh/used Message x release/debug; every call is checked for panic, hang, allocation bound and, on success, pointer-exact value views. Exhaustive over the length/offset logic that every decoder branch depends on; byte content is from fixed fillers",
+   text="bounded-exhaustive enumeration of length structures (attribute-length sequences x declared length x buffer length up to a body bound), tiny-alphabet bodies and the 65535-byte family, through all 7 decoding entry points x buffer capacities x fresh/used Message (also one from stun.New() between two others) x release/debug; every call is checked for panic, hang, allocation bound and, on success, pointer-exact value views. Exhaustive over the length/offset logic that every decoder branch depends on; byte content is from fixed fillers",
    note="bounds: body <= 20/28 bytes for the full product (quick/thorough); allocation clause uses 64n+4096; random / coverage-guided tails of the quantifier are not attempted",
    technique="bounded exhaustive enumeration of input shapes against an oracle (explicit finite domain, sharded, no sampling)", ref="DESIGN.md section 2 C01"),
  "C02": dict(level="exploration", engine="I",
